@@ -343,6 +343,14 @@ func (e *Env) ident(name string) (Val, error) {
 			if v, ok := e.st.Vars[keys[ord-1]]; ok {
 				return v, nil
 			}
+			// a local of this function that does not exist on this path (declared in a block the path did not
+			// go through): an arbitrary value of its type
+			if al := e.fr.allocByKey(keys[ord-1]); al != nil {
+				et := al.Type().Underlying().(*types.Pointer).Elem()
+				if classify(et) != KStruct && classify(et) != KArray && classify(et) != KOpaque {
+					return e.u().FreshVal("dead."+base, et), nil
+				}
+			}
 		}
 		// captured variable living in a cell
 		if keys := e.fr.localKeys["&"+base]; len(keys) >= ord {
@@ -1019,7 +1027,8 @@ func (e *Env) quant(t EQuant) (Val, error) {
 		var alts [][]string
 		for _, d := range decls {
 			name := strings.Fields(d[1:])[0]
-			re := regexp.MustCompile(`\(select ([^\s()]+) ` + regexp.QuoteMeta(name) + `\)`)
+			// the indexed array is a component symbol or one select deep (elements of a slice: (select (select E ptr) q))
+			re := regexp.MustCompile(`\(select ([^\s()]+|\(select [^\s()]+ [^\s()]+\)) ` + regexp.QuoteMeta(name) + `\)`)
 			ms := re.FindAllStringSubmatch(body.S, -1)
 			seen := map[string]bool{}
 			var mine []string
@@ -1545,6 +1554,8 @@ func (e *Env) uninterpreted(sf *SpecFunc) (Val, error) {
 // globalFacts: nothing beyond what LoadAddr states for error sentinels.
 func (x *Exec) globalFacts(o *types.Var, v Val) {}
 
+var ghostCompRe = regexp.MustCompile(`^(GF\$[^@!]*?)(?:\.havoc|\.hv)?(?:[@!]\d+)?$`)
+
 // setGhostField performs the ghost assignment xv.$name = v in state e.st (scalar-layout ghost fields only).
 func (e *Env) setGhostField(xv Val, name string, v Val) error {
 	u := e.u()
@@ -1576,9 +1587,15 @@ func (e *Env) setGhostField(xv Val, name string, v Val) error {
 			}
 		}
 		if cname == "" {
+			// not materialised in this state yet: the term is <component>@<epoch>
+			if m := ghostCompRe.FindStringSubmatch(comp); m != nil {
+				cname = m[1]
+			}
+		}
+		if cname == "" {
 			return fmt.Errorf("ghost set $%s: component %s not found", name, comp)
 		}
-		arr := e.st.Heap[cname]
+		arr := u.comp(e.st, cname, ArrSort(SInt, cur.S[i].So))
 		u.setComp(e.st, cname, Store(arr, Term{ref, SInt}, v.S[i]))
 	}
 	return nil
